@@ -198,6 +198,8 @@ func (p *Parser) ParseReader(r io.Reader, args ...any) (data any, err error) {
 
 			return
 		}
+		// The next buffer starts this many bytes further into the stream.
+		p.noff -= len(buf) - skip
 		skip = 0
 		if eof {
 			break
